@@ -11,6 +11,8 @@ CONSTANTS
   MaxFiles = 4
   RootRule = FALSE
   EmitCases = TRUE
+  EmitMod = 1
+  EmitRem = 0
 INVARIANTS TypeOK HooksExact OrderSorted NamesUnique ConfigRound RootNameIrrelevant Emit
 PROPERTIES AddIsLocal
 CHECK_DEADLOCK FALSE
